@@ -253,6 +253,13 @@ class FAll(F):
         self.vars, self.guard, self.body, self.triggers = vars_, guard, body, triggers
 
 
+class FAny(F):
+    """existential (bounded): exists vars. guard /\\ body   (body ground)"""
+
+    def __init__(self, vars_, guard, body):
+        self.vars, self.guard, self.body = vars_, guard, body
+
+
 class Schema:
     """Universally quantified hypothesis  forall vars. body  (body ground in vars)."""
 
